@@ -389,7 +389,13 @@ func genC11(g *gen, seed int64) *Program {
 	p.Cfg.Frag = g.pick(4)
 	p.Cfg.UseHandle = g.p(0.3)
 	p.Cfg.Renderer = g.pick(3)
+	// sometimes a slow reader: the server blocks while writing a large reply
+	// and other requests are served meanwhile
+	p.Cfg.SendBuf = []int{0, 0, 0, 64, 512, 4096}[g.pick(6)]
 	n := 1 + g.pick(2)
+	if p.Cfg.SendBuf > 0 && g.p(0.5) {
+		n = 2 + g.pick(2)
+	}
 	for id := 0; id < n; id++ {
 		r := &RPC{ID: id, Transport: THTTP, Svc: "sim.S", Meth: fmt.Sprintf("M%d", id), RawClient: true}
 		r.Call = "/" + r.Svc + "/" + r.Meth
@@ -450,6 +456,16 @@ func genC11(g *gen, seed int64) *Program {
 				rq.Body = RawStr(b)
 				rq.Note = fmt.Sprintf("frames:%d", nreq)
 			}
+		case x < 0.68 && r.Kind != KUnary:
+			// well-formed frames, then the body ends (cleanly, as far as HTTP is
+			// concerned) somewhere inside them
+			var b []byte
+			for i := 0; i < 1+g.pick(3); i++ {
+				b = append(b, refFrame(enc, false)...)
+			}
+			cut := g.pick(len(b) + 1)
+			rq.Body = RawStr(b[:cut])
+			rq.Note = fmt.Sprintf("truncated:%d/%d", cut, len(b))
 		case x < 0.75:
 			rq.Body = ""
 			rq.Note = "empty"
@@ -473,7 +489,14 @@ func genC11(g *gen, seed int64) *Program {
 			if g.p(0.4) {
 				r.Handler = append(r.Handler, g.hdrOp())
 			}
-			r.Handler = append(r.Handler, Op{K: "return", St: g.maybeStatus(), Msg: g.msg()})
+			ret := Op{K: "return", St: g.maybeStatus(), Msg: g.msg()}
+			if ret.Msg != nil && ret.Msg.Kind != 1 && g.p(0.25) {
+				ret.Msg.Size = 5000 + g.pick(20000) // larger than net/http's write buffer
+				if p.Cfg.SendBuf > 0 && ret.Msg.Size > 200*p.Cfg.SendBuf {
+					ret.Msg.Size = 200 * p.Cfg.SendBuf
+				}
+			}
+			r.Handler = append(r.Handler, ret)
 		case KServerStream:
 			r.Handler = []Op{{K: "recv"}}
 			for i := 0; i < g.pick(3); i++ {
@@ -492,6 +515,15 @@ func genC11(g *gen, seed int64) *Program {
 		}
 		r.StopOnErr = g.p(0.7)
 		p.RPCs = append(p.RPCs, r)
+	}
+	if p.Cfg.SendBuf > 0 {
+		for _, r := range p.RPCs {
+			for i := range r.Handler {
+				if m := r.Handler[i].Msg; m != nil && m.Size > 200*p.Cfg.SendBuf {
+					m.Size = 200 * p.Cfg.SendBuf
+				}
+			}
+		}
 	}
 	if len(p.RPCs) == 2 && g.p(0.5) {
 		// state carried across requests: the second request is sent after the
@@ -591,6 +623,11 @@ func oracleC11(s *Sim) {
 			continue
 		}
 		st, _ := strconv.Atoi(raw.Flags["status"])
+		if !raw.Err.IsNil() || s.stats.HitCap {
+			// the reply body was not read to its end (the run was torn down
+			// first): nothing can be said about its content
+			continue
+		}
 		ct := ""
 		badHdr := false
 		for _, kv := range rq.Hdrs {
